@@ -729,6 +729,138 @@ def merged_split(chk, ctx, rng, d, cap, forced=None, U=None):
             chk.fail('merged_split:mixture', 'project(merged, M=%d) differs from the hypergeometric mixture over the splits by %.3g (scale %.3g)' % (M, err, scale), inp)
     chk.stat('merged_split')
 
+# ------------------------------------------------------------------------------------------ round 5: closed forms (K) and folded input (L3)
+def case_mixsplit(chk, ctx, fs, pq, M):
+    """K: the closed form of C10_project_merged_mixture evaluated by the Lean model (`mixSplit`: hypergeometric mixture over the splits
+    of project-both-then-merge) against the implementation's `combine_two_pops(pq).project(.. M ..)`; fs has no masked entry"""
+    driver = ctx['driver']
+    if driver is None or not driver.ok():
+        return
+    d = fs.ndim
+    a, b = sorted(int(t) - 1 for t in pq)
+    ns = [int(x) - 1 for x in fs.shape]
+    tgt = [(int(M) if k == a else ns[k]) for k in range(d) if k != b]
+    inp = dict(op='mixsplit', tocombine=[int(t) for t in pq], M=int(M), fs=spec_json(fs))
+    res, exc = call(lambda: fs.combine_two_pops(list(pq)).project(tgt))
+    out = ask(driver, 'mixsplit', ilist(pq), str(int(M)), fs)
+    chk.stat('op:mixsplit')
+    if exc is not None:
+        (chk.k_ok('mixsplit:rejects') if out == 'err raises' else chk.k_bad('mixsplit:rejects', inp, repr(exc), out, None))
+        return
+    compare_model(chk, 'mixsplit', inp, res, out, cmp_labels=False)
+
+def case_projscr(chk, ctx, fs, ms, mc):
+    """K: the closed form of C10_project_scramble evaluated by the Lean model (`redealProj`: re-deal of the projected pooled spectrum)
+    against the implementation's `scramble_pop_ids(mask_corners).project(ms)`"""
+    driver = ctx['driver']
+    if driver is None or not driver.ok():
+        return
+    ms = [int(m) for m in ms]
+    inp = dict(op='projscr', ns=ms, mask_corners=bool(mc), fs=spec_json(fs))
+    res, exc = call(lambda: fs.scramble_pop_ids(mask_corners=mc).project(list(ms)))
+    out = ask(driver, 'projscr', ilist(ms), '1' if mc else '0', fs)
+    chk.stat('op:projscr')
+    if exc is not None:
+        (chk.k_ok('projscr:rejects') if out == 'err raises' else chk.k_bad('projscr:rejects', inp, repr(exc), out, None))
+        return
+    compare_model(chk, 'projscr', inp, res, out)
+
+def obsF_equal(a, b):
+    """the `ObsF` of the theorems for FOLDED spectra: obs_equal + the same data wherever the mask bit equals the folded-out bit
+    (the data `unfold` reads under the folded-out mask)"""
+    ok, why = obs_equal(a, b)
+    if not ok:
+        return ok, why
+    if not a.folded:
+        return False, 'result is not folded'
+    tot = a._total_per_entry()
+    fo = tot > int(np.sum(a.sample_sizes) / 2)
+    sel = (np.asarray(a.mask) == fo) & fo
+    if np.any(sel):
+        x = np.asarray(a.data)[sel]; y = np.asarray(b.data)[sel]
+        if not (np.all(np.isfinite(x)) and np.all(np.isfinite(y))):
+            return False, 'non-finite data under the folded-out mask'
+        scale = max(float(np.max(np.abs(np.asarray(b.data)))), 1e-300)
+        if float(np.max(np.abs(x - y))) > RTOL * scale:
+            return False, 'data under the folded-out mask differ by %.3g (unfold reads them)' % float(np.max(np.abs(x - y)))
+    return True, ''
+
+def commute_project_folded(chk, ctx, rng, d, cap, forced=None, F=None):
+    """L3 of the commutations with `project` on FOLDED input under ObsF: marginalize / filter_pops (proved:
+    C10_commute_project_marginalize_folded), reorder_pops (proved: C10_commute_project_reorder_folded), combine_two_pops on untouched populations (proved:
+    C10_commute_project_combine_two_folded), combine_pops (validated only); F = fold of a standard-masked spectrum"""
+    def smaller(ns, keep_fixed=()):
+        return [n if k in keep_fixed else (n if rng.random() < 0.2 else int(rng.integers(1, n + 1))) for k, n in enumerate(ns)]
+    todo = []
+    if forced is not None:
+        todo.append((F, forced[0], forced[1]))
+    elif d >= 2:
+        def newF():
+            U, _ = gen_spectrum(ctx, rng, d, min(cap, 250), maskmode='std', folded=False)
+            return U.fold()
+        F1 = newF(); ns1 = [int(s) - 1 for s in F1.shape]
+        todo.append((F1, 'marginalize', dict(over=rand_subset(rng, d, 1, d - 1), ns=smaller(ns1), mask_corners=True)))
+        F2 = newF(); ns2 = [int(s) - 1 for s in F2.shape]
+        todo.append((F2, 'reorder_pops', dict(neworder=[int(x) + 1 for x in rng.permutation(d)], ns=smaller(ns2))))
+        if d >= 3:
+            F3 = newF(); ns3 = [int(s) - 1 for s in F3.shape]
+            pq = [int(x) for x in rng.choice(d, size=2, replace=False)]
+            todo.append((F3, 'combine_two_pops', dict(tocombine=[pq[0] + 1, pq[1] + 1], ns=smaller(ns3, keep_fixed=pq))))
+            F4 = newF(); ns4 = [int(s) - 1 for s in F4.shape]
+            tc = [int(x) for x in rng.choice(d, size=int(rng.integers(2, d)), replace=False)]
+            todo.append((F4, 'combine_pops', dict(tocombine=[t + 1 for t in tc], ns=smaller(ns4, keep_fixed=tc))))
+    for V, name, args in todo:
+        f, g = exact_pair(ctx, V, name, args)
+        inp = dict(op='commute_project_folded:' + name, args=args, fs=spec_json(V))
+        chk.l3(('commute_project_folded', name, V.ndim, V.pop_ids is not None))
+        a, ea = call(f); b, eb = call(g)
+        if ea is not None or eb is not None:
+            chk.fail('commute_project_folded:%s:raises' % name, '%s: %r / %r' % (name, ea, eb), inp); continue
+        ok, why = obsF_equal(a, b)
+        if not ok:
+            chk.fail('commute_project_folded:%s' % name,
+                     '%s then project != project then %s on FOLDED input (shape, mask, unmasked data, data under the folded-out mask, labels, flag): %s'
+                     % (name, name, why), inp)
+        chk.stat('commute_project_folded:' + name)
+
+def label_orders(chk, ctx, rng):
+    """every order in which the caller can list the populations (C10_combine_two_public, C10_combine_public_order, C10_misc_pairs):
+    all ordered pairs for combine_two_pops, all orderings of a merge set for combine_pops, all three pairs of Misc.combine_pops"""
+    dadi = ctx['dadi']
+    g = dadi.Spectrum(rng.integers(0, 20, (2, 3, 2, 4)).astype(float), pop_ids=['A', 'B', 'C', 'D'])
+    for p in range(1, 5):
+        for q in range(1, 5):
+            if p != q:
+                case_combine(chk, ctx, g, [p, q], two=True)
+    g5 = dadi.Spectrum(rng.integers(0, 20, (2, 3, 2, 2, 3)).astype(float), pop_ids=['A', 'B', 'C', 'D', 'E'])
+    for perm in itertools.permutations([2, 4, 5]):
+        case_combine(chk, ctx, g5, list(perm), two=False)
+    for tc in ([5, 1, 3, 2], [3, 1], [4, 3], [2, 5, 3, 1, 4]):
+        case_combine(chk, ctx, g5, tc, two=False)
+    for idx in ([0, 1], [0, 2], [1, 2]):
+        data, _ = gen_values(rng, [3, 4, 5])
+        case_misc(chk, ctx, dadi.Spectrum(data), idx)
+        data, _ = gen_values(rng, [4, 4, 4])                   # equal sizes: only the entries can be wrong
+        case_misc(chk, ctx, dadi.Spectrum(data, mask_corners=False), idx)
+
+def under_mask_cases(chk, ctx, rng):
+    """K: `unfold` / `project` read the data UNDER the folded-out mask (C10_obs_not_congruence_for_unfold): folded spectra with
+    non-zero values there (the constructor warns and accepts them)"""
+    import logging
+    dadi = ctx['dadi']
+    lg = logging.getLogger('Spectrum_mod'); old = lg.level; lg.setLevel(logging.ERROR)
+    try:
+        for shape in ([4], [3, 3], [2, 3, 2]):
+            data, _ = gen_values(rng, shape)
+            data = data + 1.0
+            F0 = dadi.Spectrum(np.ones(shape)).fold()
+            F = dadi.Spectrum(data, mask=np.asarray(F0.mask).copy(), mask_corners=False, data_folded=True, check_folding=False)
+            case_foldunfold(chk, ctx, F)
+            ns = [s - 1 for s in shape]
+            case_project(chk, ctx, F, [max(1, n - 1) for n in ns])
+    finally:
+        lg.setLevel(old)
+
 # ------------------------------------------------------------------------------------------ drivers of the check
 def one_round(chk, ctx, rng, cap, d):
     dadi = ctx['dadi']
@@ -780,6 +912,21 @@ def one_round(chk, ctx, rng, cap, d):
     if d >= 2:
         U3, _ = gen_spectrum(ctx, rng, d, min(cap, 250), maskmode='none', folded=False)
         commute_fold(chk, ctx, U3, rng, forced=('marginalize', dict(over=rand_subset(rng, d, 1, d - 1))))
+    # round 5: closed forms through the model (K), commutations with project on folded input (L3)
+    if d >= 2:
+        fs11, _ = gen_spectrum(ctx, rng, d, min(cap, 120), maskmode='none', folded=False)
+        pq11 = [int(x) + 1 for x in rng.choice(d, size=2, replace=False)]
+        nab = (fs11.shape[pq11[0] - 1] - 1) + (fs11.shape[pq11[1] - 1] - 1)
+        M11 = nab + 1 if rng.random() < 0.07 else int(rng.integers(1, nab + 1))
+        case_mixsplit(chk, ctx, fs11, pq11, M11)
+    mm12 = ['none', 'none', 'std'][int(rng.integers(3))]
+    fs12, _ = gen_spectrum(ctx, rng, d, 30 if d == 1 else min(cap, 150), maskmode=mm12, folded=False)
+    n12 = [int(x) - 1 for x in fs12.shape]
+    m12 = [n if rng.random() < 0.25 else int(rng.integers(1, n + 1)) for n in n12]
+    if rng.random() < 0.07:
+        m12[int(rng.integers(d))] = n12[0] + max(n12) + 1
+    case_projscr(chk, ctx, fs12, m12, True if mm12 == 'std' else bool(rng.random() < 0.5))
+    commute_project_folded(chk, ctx, rng, d, cap)
     # public project (model used by the general commutation theorems): any mask, folded or not, some sizes unchanged, some invalid
     fs10, _ = gen_spectrum(ctx, rng, d, 40 if d == 1 else min(cap, 250))
     n10 = [int(x) - 1 for x in fs10.shape]
@@ -843,6 +990,9 @@ def edge_cases(chk, ctx, rng):
     case_combine(chk, ctx, g, [4, 2, 1], two=False)
     g = dadi.Spectrum(rng.integers(0, 20, (3, 4, 5, 6)).astype(float), pop_ids=['1', '2', '3', '4'])
     case_combine(chk, ctx, g, [4, 2], two=True)
+    # round 5: every caller order of the populations; data under the folded-out mask
+    label_orders(chk, ctx, rng)
+    under_mask_cases(chk, ctx, rng)
 
 def run(chk, ctx):
     tier = ctx['tier']
@@ -850,11 +1000,12 @@ def run(chk, ctx):
     chk.rule = ('spectra of 1-6 populations with unequal sample sizes (extent 2..; product of extents <= %s), values: counts / dyadic floats / sparse / tiny; '
                 'mask: the two corners, no mask at all, or corners + 1-3 random entries; folded 35%%; labels absent 30%%; '
                 'arguments: random subsets / permutations / merge sets (unordered, 1-based where the API is), both settings of mask_corners; '
-                'edge cases: rejected arguments, empty subset, identity permutation, all populations merged, sample size 1 on every axis; '
+                'edge cases: rejected arguments, empty subset, identity permutation, all populations merged, sample size 1 on every axis, '
+                'every ordered pair / every ordering of a merge set on labelled spectra, all three pairs of Misc.combine_pops, folded spectra with non-zero data under the folded-out mask; '
                 'non-trivial = distinct (operation, #populations, #axes touched, folded, labelled, flag, mask kind)'
                 % ('300 (quick) / 1000 (thorough)'))
     chk.unproved = [
-        'commutation with projection is proved for the loops and the public functions on UNFOLDED spectra: marginalize (any set of axes, any admissible sizes, spectrum without masked entries, both mask_corners), reorder_pops and combine_two_pops/combine_pops on untouched axes (any mask); validated numerically only (L3): the same commutations for folded input (unfold -> project -> fold), for corner-masked input of marginalize, scramble_pop_ids vs projection (project(scramble) = re-deal(project(pool))), and the lifting to n-D spectra of the proved weight identity "project the merged population = hypergeometric mixture over the splits" (merged_split)',
+        'commutation with projection: proved for the loops and the public functions on UNFOLDED spectra (marginalize: any set of axes, any admissible sizes, spectrum without masked entries, both mask_corners, or corner-masked with mask_corners=True; reorder_pops and combine_two_pops/combine_pops on untouched axes: any mask) and, since round 5, on FOLDED input under ObsF for marginalize/filter_pops (standard folded mask) and reorder_pops (any mask); projecting the MERGED population = hypergeometric mixture over the splits is proved entry-wise for n-D spectra without masked entries (C10_project_merged_mixture, one merged axis projected); project(scramble) = re-deal(project(pool)) is proved for all dimensions and sizes (C10_project_scramble). combine_two_pops vs project on FOLDED input is proved for genuine folded spectra (standard mask, zeros under the folded-out mask; C10_commute_project_combine_two_folded). Validated numerically only (L3 commute_project_folded:combine_pops): the iterated merges of combine_pops (3 or more populations) vs project on FOLDED input',
         'mask bookkeeping of the folded paths: proved end to end for marginalize of fold(U), U without masked entries (C10_marginalize_folded_path); the folded paths of scramble_pop_ids and project, and folded spectra with additional masked entries, are validated by K',
         'the loops of the implementation are tied to the model by correspondence (K); translated (T) are only the three list programs and the mask statement of combine_two_pops, the filter_pops call and the Misc.combine_pops table',
         'round-off: floats vs exact rationals compared at 1e-9 relative to the array scale; binomials via exp(gammaln) in scramble_pop_ids and _cached_projection',
@@ -893,6 +1044,14 @@ def replay(chk, ctx, data):
         case_project_one(chk, ctx, fs, inp['axis'], inp['n'])
     elif op == 'project':
         case_project(chk, ctx, fs, inp['ns'])
+    elif op in ('fold', 'unfold'):
+        case_foldunfold(chk, ctx, fs)
+    elif op == 'mixsplit':
+        case_mixsplit(chk, ctx, fs, inp['tocombine'], inp['M'])
+    elif op == 'projscr':
+        case_projscr(chk, ctx, fs, inp['ns'], inp['mask_corners'])
+    elif op.startswith('commute_project_folded:'):
+        commute_project_folded(chk, ctx, rng, fs.ndim, 300, forced=(op.split(':', 1)[1], inp.get('args') or {}), F=fs)
     elif op.startswith('commute_project_exact:'):
         commute_project_exact(chk, ctx, rng, fs.ndim, 300, forced=(op.split(':', 1)[1], inp.get('args') or {}), U=fs)
     elif op == 'merged_split':
